@@ -1,7 +1,7 @@
 (* C11 — the Gibbs-state computation returns the exact reduced thermal state. *)
 From Coq Require Import ZArith List Bool Arith Lia.
 From OQ Require Import Lib.RingSum Lib.Mat Model.PathSum Model.Shapes Model.History
-  Proofs.PathSumSpec Proofs.ShapesSpec Proofs.HistorySpec.
+  Proofs.PathSumSpec Proofs.PathSumTrace Proofs.PathSumFree Proofs.ShapesSpec Proofs.HistorySpec.
 Import ListNotations.
 
 (* The imaginary-time network of the Gibbs computation is the same path sum as the real-time one
@@ -23,6 +23,28 @@ Theorem gibbs_commuting :
                             (nth s (PathSum.cur uout props rho0 (S n) (repeat j (S n))) r0)).
 Proof. intros K d diag0 coef uin uout props rho0 Hc n s. apply commuting_single_path. exact Hc. Qed.
 Print Assumptions gibbs_commuting.
+
+(* (1b) zero coupling (every Matsubara weight equal to one), ANY Hamiltonian: the network is the plain
+   product of the half-slice propagators applied to the start vector — for the Gibbs computation
+   (P exp(-H delta/2) on both sides of every slice) the column b of exp(-H/T) — for every number of
+   slices, dimension and basis change *)
+Theorem gibbs_zero_coupling :
+  forall (K : Ring) (d : nat) (diag0 : nat -> K) (coef : nat -> nat -> option (list (list K)))
+         (uin uout : list (list K)) (props : nat -> list (list K) * list (list K)) (rho0 : list K),
+    square K d uin -> square K d uout ->
+    (forall k, square K d (fst (props k)) /\ square K d (snd (props k))) -> length rho0 = d ->
+    (forall j, (j < d)%nat -> diag0 j = r1) ->
+    (forall kp k m jp j, coef kp k = Some m -> entry K m jp j = r1) ->
+    forall n, state d diag0 coef uin uout props rho0 n = free K uin uout props rho0 n.
+Proof. intros K d diag0 coef uin uout props rho0 H1 H2 H3 H4 H5 H6. exact (pathsum_free K d diag0 coef uin uout props rho0 H1 H2 H3 H4 H5 H6). Qed.
+Print Assumptions gibbs_zero_coupling.
+
+(* non-vacuous: a 2-level "system" with a non-symmetric integer half-slice propagator, all weights one *)
+Example gibbs_zero_coupling_example :
+  let P := [[2;1];[3;-1]]%Z in
+  @state ZRing 2 (fun _ => 1%Z) (fun _ _ => Some [[1;1];[1;1]]%Z) (@mid ZRing 2) (@mid ZRing 2) (fun _ => (P, P)) [1;0]%Z 3
+  = @mvec ZRing (@mmul ZRing P (@mmul ZRing P (@mmul ZRing P (@mmul ZRing P (@mmul ZRing P P))))) [1;0]%Z.
+Proof. vm_compute. reflexivity. Qed.
 
 (* (2) the sum of the cells of n slices is G(n) - G(0) for the twice-integrated Matsubara kernel G
    on the imaginary-time grid: it depends on the total imaginary time only, not on how many
